@@ -74,6 +74,8 @@ type Exec struct {
 	passModels []PassModel
 	accessAll  map[string]*AccessSummary
 	blockSites map[string]int
+	qcache     map[string]qres
+	qcacheHits int
 	ifConverted int
 	forkSites   map[string]int
 	lenient    bool
